@@ -31,6 +31,10 @@ class Recorder:
                 self.fired += 1
                 raise RHSFault(f'injected RHS fault at evaluation {k}')
             r = f(t, y, *a)
+            if r is None and a:
+                # in-place convention of the fortran backend: the routine fills the dy buffer (first extra argument)
+                self.events.append((t, yc, np.array(a[0], copy=True)))
+                return r
             if self.nan_from is not None and k >= self.nan_from:
                 self.nan_fired += 1
                 return np.full_like(np.asarray(r), np.nan)
